@@ -38,7 +38,7 @@ def lemma_fn(trigger):
 
 
 IDENTITY_FNS = {"float_bits": ("float", "int"), "float_from_bits": ("int", "float"),
-                "dset": None, "seq_items": None, "bv_to_int": None}
+                "dset": None, "seq_items": None, "bv_to_int": None, "is_data": None}
 
 
 def dset(d, k, v):
@@ -51,3 +51,8 @@ def dset(d, k, v):
 def seq_items(d):
     """the items of a list/tuple datum as a list (spec helper)"""
     return list(d)
+
+
+def is_data(x):
+    """x is a data value, not one of the library's module-level sentinel objects (`X = object()`)"""
+    return type(x) is not object
